@@ -102,7 +102,20 @@ func genTree(r *rand.Rand, withBad bool, maxTempl int) treeSpec {
 	addDir(ord, []string{"vendor", "_skip", ".hidden"}[r.Intn(3)])
 	addDir(sk, "pkg")
 	base := int64(1600000000 + r.Intn(1000000))
-	mt := func() int64 { return base + int64(r.Intn(100000)) }
+	// most files get ordinary recent mtimes; a few carry normalised / ancient
+	// timestamps (the Unix epoch itself, before it, early 1970) as produced by
+	// reproducible-build tooling (SOURCE_DATE_EPOCH=0, tar --mtime=@0)
+	mt := func() int64 {
+		switch r.Intn(40) {
+		case 0:
+			return 0
+		case 1:
+			return -86400 * int64(1+r.Intn(300))
+		case 2:
+			return int64(1 + r.Intn(1000))
+		}
+		return base + int64(r.Intn(100000))
+	}
 	var live, skippedDirs []string
 	for _, d := range dirs {
 		if inSkipped(d, true) {
